@@ -64,6 +64,10 @@ theorem txDescription_reachL {a st : PState σ} (h0 : ReachL E a st) : ReachL E 
   unfold txDescription
   grind [ReachL.adv]
 
+theorem commodityInline_reachL {a st : PState σ} (h0 : ReachL E a st) : ReachL E a (commodityInline E st).2 := by
+  unfold commodityInline
+  grind [ReachL.adv]
+
 theorem isLineEnd_false {t : Token} (h : ¬ isLineEnd t = true) : t.ty ≠ .newline ∧ t.ty ≠ .eof := by
   unfold isLineEnd at h; simp at h; exact h
 
@@ -172,6 +176,9 @@ theorem postingTail_RC {cl} (hc : ClosingOk cl) {a st : PState σ} (h0 : RC E a 
     RC E a 0 (postingTail E cl st).2 := RC.line' E h0 (postingTail_reachL E hc)
 theorem txDescription_RC {a st : PState σ} (h0 : RC E a 0 st) :
     RC E a 0 (txDescription E st).2 := RC.line' E h0 (txDescription_reachL E)
+theorem commodityInline_RC {a st : PState σ} (h0 : RC E a 0 st) :
+    RC E a 0 (commodityInline E st).2 := RC.line' E h0 (commodityInline_reachL E)
+grind_pattern commodityInline_RC => RC E a 0 st, commodityInline E st
 grind_pattern postingOpen_RC => RC E a 0 st, postingOpen E st
 grind_pattern postingTail_RC => RC E a 0 st, postingTail E cl st
 grind_pattern txDescription_RC => RC E a 0 st, txDescription E st
